@@ -499,6 +499,12 @@ def gen_trees(seed, count, maxdepth):
         stackish += [("rule", 3, ("atomic", 0, ("choice", [("seq", [("atomic", inner, ("rule", 1, ("charby", "alpha"))), ("str", b"!")]), ("seq", [("atomic", inner, ("rule", 2, ("charby", "alpha"))), ("str", b"?")])]))),
                      ("rule", 3, ("atomic", 0, ("seq", [("rep", ("seq", [("atomic", inner, ("rule", 1, ("charby", "alpha"))), ("str", b"/")])), ("atomic", inner, ("rule", 2, ("charby", "alpha")))]))),
                      ("atomic", 0, ("seq", [("opt", ("seq", [("atomic", inner, ("rule", 1, ("str", b"a"))), ("str", b"b")])), ("charby", "any")]))]
+    # detail tracking: a rule entered where an earlier alternative failed, containing a look-ahead that reaches further than anything before,
+    # followed only by consumption that records no attempt (skip / stack matching)
+    stackish += [("choice", [("rule", 1, ("str", b"let")), ("rule", 2, ("seq", [("look", True, ("charby", "alpha")), ("skip", 1)]))]),
+                 ("rule", 3, ("choice", [("rule", 1, ("str", b"ab")), ("rule", 2, ("look", True, ("seq", [("charby", "any"), ("charby", "any")])))])),
+                 ("choice", [("rule", 1, ("seq", [("str", b"a"), ("str", b"b")])), ("rule", 2, ("seq", [("look", True, ("str", b"ac")), ("skip", 2), ("opt", ("str", b"d"))]))]),
+                 ("seq", [("opt", ("rule", 1, ("str", b"x"))), ("rule", 2, ("seq", [("look", False, ("str", b"y")), ("look", True, ("skip", 2)), ("skip", 1)]))])]
     stackish += [("pop",), ("peek",),
                  ("rep", ("rule", 1, ("str", b"a"))), ("opt", ("rule", 1, ("seq", [("str", b"a"), ("str", b"b")]))),
                  ("look", False, ("rule", 1, ("str", b"a"))), ("rule", 1, ("seq", [("str", b"a"), ("rep", ("rule", 2, ("range", 0x61, 0x7a)))])),
